@@ -299,3 +299,88 @@ Section SINGLE.
       + exact (ref_spans_NoDup re_match parse_float c d e (g_trace g)).
   Qed.
 End SINGLE.
+
+(* ================================================================ one portion of a complex request (rf_max > 0)
+   ComplexRequestProcessor sends the search once per portion with  cityHash64(trace_id) % Max == I [OR trace_id IN (cached ids)]  added to
+   the WHERE of index_search.  The statement of a portion, over the whole index, returns what the script means over the rows of the traces
+   VISIBLE to that portion -- the `V i S from` of theorem 8 (model/TraceqlPortions.v), here with spans and selectors. *)
+Lemma db_consistent_visible hash64 c d : db_consistent c d -> db_consistent c (visible hash64 c d).
+Proof.
+  intros [H1 H2]. split.
+  - intros r Hr. apply filter_In in Hr. now apply H1.
+  - intros a b Ha Hb. apply filter_In in Ha, Hb. apply H2; tauto.
+Qed.
+
+Section SINGLEP.
+  Variable re_match : string -> string -> bool.
+  Variable parse_float : string -> option Q.
+  Variable hash64 : string -> Z.
+  Variable c : ctx.
+  Variable d : db.
+  Hypothesis Hok : rf_ok c = true.
+  Notation V := (visible hash64 c d).
+  Hypothesis Hcons : db_consistent c V.
+  Hypothesis Hcap : spans_capped c V.
+
+  Variable e : attr_exp.
+  Notation cd := (fst (analyze_cond e ([], []))).
+  Notation terms := (fst (snd (analyze_cond e ([], [])))).
+  Hypothesis Hkeys : keys_ok e = true.
+  Hypothesis Hlits : forallb term_lit_ok terms = true.
+  Hypothesis Hlen : List.length terms <= 64.
+  Hypothesis Hdepth : cond_depth cd <= 28.
+  Hypothesis Hexact : lits_exact e = true.
+  Variable ao : andor.
+
+  Theorem traceql_correct_single_portion n s :
+    plan (q1 e ao) MSearch c n = Ok s ->
+    exists res, index_rows_g re_match parse_float hash64 c d s = Some res
+                /\ result_ok c (traceql_sem re_match parse_float false c V (q1 e ao)) res = true.
+  Proof.
+    intros Hplan. destruct (rf_single c Hok) as [x Hx].
+    (* the shape of the plan *)
+    unfold plan, plan_search, plan_index, q1 in Hplan. cbn [sc_tail] in Hplan. unfold simple_planner in Hplan.
+    cbn [check sel_attr sel_agg bind agg_lacks_attr tails_have_attr sc_head] in Hplan.
+    unfold analyze in Hplan. cbn [sel_attr] in Hplan. destruct (analyze_cond e ([], [])) as [cd0 [ts0 mp0]] eqn:Ea. cbn [fst snd] in *.
+    destruct (map_res get_term ts0) as [conds|er|] eqn:Hc; [|unfold attr_condition in Hplan; rewrite Hc in Hplan; discriminate..].
+    pose proof (attr_condition_gen c e "" conds) as Hs. rewrite Ea in Hs. cbn [fst snd] in Hs.
+    unfold agg_attr_of in Hplan. cbn [sel_agg] in Hplan. rewrite (Hs Hc n), Hx in Hplan. cbn [bind sel_agg] in Hplan.
+    assert (Hc' : map_res get_term (fst (snd (analyze_cond e ([], [])))) = Ok conds) by now rewrite Ea.
+    assert (Hlits' : forallb term_lit_ok (fst (snd (analyze_cond e ([], [])))) = true) by now rewrite Ea.
+    assert (Hlen' : List.length (fst (snd (analyze_cond e ([], [])))) <= 64) by now rewrite Ea.
+    assert (Hdepth' : cond_depth (fst (analyze_cond e ([], []))) <= 28) by now rewrite Ea.
+    set (S1 := and_where [x] (stmt1 c e "" conds)) in *.
+    set (T := sql_spans re_match parse_float c V e "" conds).
+    assert (Eg : index_limit c (index_groupby "" S1) = grouped_stmt "" false [("index_search", S1)] None (lim_of c)).
+    { unfold index_limit, lim_of. destruct (Z.eqb (limit c) 0); reflexivity. }
+    rewrite Eg in Hplan. injection Hplan as <-.
+    assert (Hw : exists rest, s_withs (index_limit c (traces_data c (grouped_stmt "" false [("index_search", S1)] None (lim_of c))))
+                              = ("index_search", S1) :: ("index_grouped", grouped_stmt "" false [("index_search", S1)] None (lim_of c)) :: rest).
+    { unfold index_limit. destruct (Z.eqb (limit c) 0); unfold traces_data, grouped_stmt, S1, stmt1;
+        cbn [and_where and_into set_with set_limit s_withs fold_left add_with existsb fst snd app]; eexists; reflexivity. }
+    destruct Hw as [rest Hw].
+    assert (Hans : exists SEL, grouped_answer T (fun _ => true) (lim_of c) = Some SEL).
+    { unfold grouped_answer, lim_of. destruct (Z.eqb (limit c) 0); [eexists; reflexivity|].
+      change (map (fun g => ([VInt (g_key g)], g)) (tgroups T (fun _ => true))) with (map (fun g => enc (g_key g, g)) (tgroups T (fun _ => true))).
+      rewrite <- (map_map (fun g => (g_key g, g)) enc), sort_by_enc. eexists; reflexivity. }
+    destruct Hans as [SEL Hans].
+    exists (map (fun g => (g_trace g, g_spans g)) SEL). split.
+    - unfold index_rows_g. rewrite Hw. cbn [eval_until_g].
+      change 12 with (S 11). rewrite eval_sel_S. unfold S1.
+      rewrite (index_search_bridge_portion re_match parse_float hash64 c d e "" conds Hkeys Hc' Hlits' Hlen' Hdepth' Hok x Hx). fold T.
+      change (String.eqb "index_search" "index_grouped") with false. cbv iota.
+      rewrite eval_sel_S.
+      rewrite (grouped_bridge re_match parse_float hash64 [(attrs_table c, map row_of_irow d)] "" false
+                 (eval_sel re_match parse_float hash64 [(attrs_table c, map row_of_irow d)] 11)
+                 [("index_search", map mspan_row T)] T eq_refl None (fun _ => true) eq_refl
+                 (fun h m0 rest' Hn => ltac:(discriminate Hn)) (fun _ _ => eq_refl)).
+      rewrite Hans. cbn [option_map]. rewrite String.eqb_refl. rewrite map_map.
+      apply all_some_map_ext. intros g _. unfold g_row. cbn [app lookup String.eqb Ascii.eqb Bool.eqb].
+      now rewrite all_some_VStr.
+    - rewrite (sem_single_round re_match parse_float c V e Hexact ao).
+      exact (answer_ok T (matched1 re_match parse_float c V e) (mspan_of parse_float "") (fun _ => eq_refl) (fun _ => eq_refl) (fun _ => eq_refl)
+               (mem_spans re_match parse_float c V Hcons e Hkeys Hlits' Hlen' "" conds Hc') (fun _ => true) (fun _ => true) (fun _ _ => eq_refl)
+               (cap_spans re_match parse_float c V Hcons Hcap e Hkeys Hlits' Hlen' "" conds Hc') c SEL Hans).
+  Qed.
+End SINGLEP.
+
